@@ -750,6 +750,24 @@ package fpgo
 //@ func (SimpleSortDescriptor).TransformedBy
 //@   prop C19
 //@   ensures def: r0 == descriptor.transformFn
+//@ func NewComparableOrdered
+//@   prop C19
+//@   ensures wraps: r0.Val == val
+//@ func NewComparableString
+//@   prop C19
+//@   ensures wraps: r0.Val == val
+
+// the key of a field descriptor is the named field of the item (of its pointee when the item is a pointer), as the Comparable it
+// holds; reflect's FieldByName is an uninterpreted function of the struct value and the name.  Items without such a field, or
+// whose field does not hold a Comparable, are outside the precondition (the real code panics there).
+//@ func (FieldSortDescriptor).TransformedBy
+//@   prop C19
+//@   opt returns-lit=0
+//@ func (FieldSortDescriptor).TransformedBy lit 0
+//@   prop C19
+//@   requires has-comparable-field: rkind(rindirect(input)) == 25 && !untyped(rfield(rindirect(input), descriptor.fieldName)) && impl(rfield(rindirect(input), descriptor.fieldName), Comparable)
+//@   ensures named-field: boxed(r0) == rfield(rindirect(input), descriptor.fieldName)
+
 //@ func NewFieldSortDescriptor
 //@   prop C19
 //@   ensures made: r0.SimpleSortDescriptor.ascending == ascending && r0.fieldName == fieldName
